@@ -79,7 +79,7 @@ Lemma pstep_refines s a o :
   snd (pstep c s o) = snd (sp_pstep c a o) /\ PRel (fst (pstep c s o)) (fst (sp_pstep c a o)).
 Proof.
   intros HR. pose proof HR as [R1 [R2 [R3 R4]]].
-  destruct o as [key brk|ms| | |key v|key]; cbn [pstep sp_pstep].
+  destruct o as [key brk|ms| | |key v|key|key f]; cbn [pstep sp_pstep].
   - unfold take. rewrite R2.
     destruct (pdown s || negb brk)%bool eqn:Hd; [cbn; auto|].
     apply orb_false_iff in Hd. destruct Hd as [Hd _].
@@ -108,6 +108,7 @@ Proof.
     apply prel_put; auto. destruct v; reflexivity.
   - cbn [fst snd]. split; [|exact HR]. f_equal. rewrite (cell_seen_rel s a key HR). unfold pttl.
     destruct (lookup (pstore s) key) as [[[z|x] [t|]]|]; cbn; rewrite ?R1; reflexivity.
+  - cbn [fst snd]. split; [reflexivity|exact HR].
 Qed.
 
 Lemma prun_refines : forall ops s a, PRel s a -> prun c s ops = sp_prun c a ops.
